@@ -8,6 +8,17 @@ for log in sys.argv[1:]:
         m = re.match(r"(\S+) (C\d\d) exit=(\d) :: (.*)", l.strip())
         if m:
             rows[m.group(1)] = (m.group(2), int(m.group(3)), m.group(4))
+# seeds that the check of the property they were written for passes, and why (verified by running the named check on them)
+ELSEWHERE = {
+    "C03-r8-2": "a panic of the access logger: reported by the C04 check (`Log::request_response / precondition / boxed_parse.unwrap()`)",
+    "C11-r6-1": "what the settings are after start-up: reported by the C12 check (`read_config_file / assertion / file_step`)",
+    "C11-r8-1": "what the settings are after start-up: reported by the C12 check (`read_config_file / assertion / value@ == clean_value(v0)`)",
+    "C11-r10-1": "what the settings are after start-up: reported by the C12 check (`strip_whitespaces / postcondition`)",
+    "C04-r10-1": "one response is still written, its head is malformed: reported by the C05 / C10 / C14 checks (`truncate_new_line_carriage_return / postcondition`)",
+    "C12-r11a-3": "the settings are as they should be, the CORS code reads the wrong one: reported by the C11 check (`Cors::process_using_default_config / postcondition`)",
+    "C03-r6-3": "`Response::generate`, the twin the server does not call; its postconditions already fail (known finding F10, owned by C15)",
+    "C04-r6-3": "a schedule property (one connection at a time): C06 / C07, not applicable to this technique",
+}
 out = ["| seed | what it changes | verdict | how |", "|---|---|---|---|"]
 n = {"obligation": 0, "counterexample": 0, "missed": 0}
 for sid in sorted(rows, key=lambda s: (s[:3], "r" in s, s)):
@@ -28,6 +39,9 @@ for sid in sorted(rows, key=lambda s: (s[:3], "r" in s, s)):
         n["counterexample"] += 1
     else:
         verdict, desc = "**missed**", ("check passes" if rc == 0 else "undecided, no failing input found: " + how[:90].replace("|", "\\|"))
+        if sid in ELSEWHERE:
+            verdict = "**not by this check**"
+            desc += "; " + ELSEWHERE[sid]
         n["missed"] += 1
     out.append("| %s | %s | %s | %s |" % (sid, what, verdict, desc))
 print("\n".join(out))
